@@ -589,6 +589,15 @@ def correspond(ctx):
             label += f"(thinned, {n} removed)"
         rec = exercise(ctx, prs, label, rng, 500 if ctx.quick else 1500)
         reopen_check(ctx, prs, label, rec)
+    for r in range(1 if ctx.quick else 6):
+        # optional elements ADDED that other producers write (extension lists, children taken from PowerPoint-authored parts)
+        from harness.props.c12 import enrich
+        b = io.BytesIO(); build_deck().save(b)
+        ed, n = enrich(b.getvalue(), rng, per_part=40)
+        prs = Presentation(io.BytesIO(ed))
+        label = f"generated#e{r}(enriched, {n} added)"
+        rec = exercise(ctx, prs, label, rng, 500 if ctx.quick else 1500)
+        reopen_check(ctx, prs, label, rec)
     prs = build_deck()
     rec = exercise(ctx, prs, "generated-deck(None first)", rng, 10**6, none_first=True)
     reopen_check(ctx, prs, "generated-deck(None first)", rec)
